@@ -76,7 +76,7 @@ func LoadModule(repo, rel string) (*Module, error) {
 	dir := filepath.Join(repo, rel)
 	fset := token.NewFileSet()
 	cfg := &packages.Config{
-		Mode:  packages.LoadAllSyntax,
+		Mode:  packages.LoadAllSyntax | packages.NeedModule,
 		Dir:   dir,
 		Fset:  fset,
 		Env:   goEnv(),
